@@ -192,6 +192,24 @@ func init() {
 	}})
 
 	register(Entry{Name: "setproduct", Family: fam, Fn: stdlib.SetProductFunc, Args: func(t *rapid.T) []spec.V {
+		if rapid.IntRange(0, 9).Draw(t, "manyargs") == 5 {
+			// MANY arguments (7..17), each holding exactly one member: the
+			// product has a single element, so it stays cheap, while bounds
+			// derived from the arguments are multiplied many times
+			n := rapid.SampledFrom(gen.LongSizes[2:10]).Draw(t, "manyn")
+			kind := rapid.SampledFrom([]string{"list", "set"}).Draw(t, "manykind")
+			var out []spec.V
+			for i := 0; i < n; i++ {
+				et := primT(t)
+				ty := spec.List(et)
+				if kind == "set" {
+					ty = spec.Set(et)
+				}
+				m := val(t, et, gen.ValOpts{Simple: true, RootKnown: true}, "member")
+				out = append(out, spec.V{T: ty, St: spec.Known, Elems: []spec.V{m}})
+			}
+			return out
+		}
 		n := rapid.IntRange(2, 3).Draw(t, "nargs")
 		allLists := chance(t, 1, 2, "alllists")
 		var out []spec.V
